@@ -11,6 +11,7 @@ impl TextRange {
     pub fn start(self) -> (r: TextSize) ensures r.raw == self.start { TextSize { raw: self.start } }
     pub fn end(self) -> (r: TextSize) ensures r.raw == self.end { TextSize { raw: self.end } }
     pub fn len(self) -> (r: TextSize) requires self.start <= self.end ensures r.raw == self.end - self.start { TextSize { raw: self.end - self.start } }
+    pub fn is_empty(self) -> (r: bool) ensures r == (self.start == self.end) { self.start == self.end }
 }
 impl vstd::std_specs::convert::FromSpecImpl<TextSize> for usize {
     open spec fn obeys_from_spec() -> bool { true }
@@ -30,6 +31,10 @@ pub fn verif_error() -> Error { Error { _x: 0 } }
 #[derive(Clone, Copy, PartialEq, Eq)]
 pub struct FileId(pub u32);
 
+// std: Option::map_or (a refactoring of the edit path is likely to reach for it)
+pub assume_specification<T, U, F: FnOnce(T) -> U>[ Option::<T>::map_or ](o: Option<T>, default: U, f: F) -> (r: U)
+    requires o is Some ==> f.requires((o->Some_0,)),
+    ensures o is None ==> r == default, o is Some ==> f.ensures((o->Some_0,), r);
 pub assume_specification [ String::with_capacity ] (n: usize) -> (r: String) ensures r@ == Seq::<char>::empty();
 pub assume_specification [ <Arc<str> as From<String>>::from ] (s: String) -> (r: Arc<str>) ensures r@ == s@;
 // slab::Slab as a finite map from keys to values; indexing a vacant key panics ("invalid key")
